@@ -42,6 +42,10 @@ type Layout struct {
 	// Gap1 != 0 (video): the last sample of the first VoD segment is that many ticks shorter than nominal while the second segment
 	// keeps its decode time, so the raw segment table has a hole at its first boundary which the loader has to close
 	Gap1 int `json:"gap1,omitempty"`
+	// TfhdDur: sample durations are carried as tfhd default_sample_duration instead of per-sample trun entries
+	TfhdDur bool `json:"tfhd_dur,omitempty"`
+	// VStart: the first video sample has decode time VStart frames (video-only layouts)
+	VStart int `json:"vstart,omitempty"`
 }
 
 type Clock struct{ Timescale, FrameDur int }
@@ -117,6 +121,7 @@ type Opts struct {
 	AudioDelta []int // allowed differences (frames) between audio loop and the nearest-to-video loop; nil = {0}
 	Clocks     []Clock
 	Uniform    bool // only constant segment durations
+	VStart     bool // allow layouts whose video track starts at a decode time other than 0
 }
 
 // Gen draws an admissible layout (loop is a whole number of ms) by construction.
@@ -256,6 +261,10 @@ func Gen(t *rapid.T, o Opts) Layout {
 	if o.AllowThumb && l.Uniform() && rapid.IntRange(0, 2).Draw(t, "thumbs") == 0 {
 		l.Thumbs = true
 	}
+	if o.VStart && rapid.IntRange(0, 3).Draw(t, "vstart?") == 0 {
+		l.VStart = rapid.IntRange(1, 60).Draw(t, "vstart") * q
+		l.Audio, l.ASegFrames, l.Text, l.Thumbs = "", nil, false, false
+	}
 	return l
 }
 
@@ -340,6 +349,10 @@ func initWithTimescale(raw []byte, ts uint32) ([]byte, error) {
 	return buf.Bytes(), nil
 }
 
+// tfhdDefaults makes writeSeg move constant sample durations/sizes/flags from the trun entries into tfhd defaults
+// (the layout many packagers produce); set per Materialize call through Layout.TfhdDur.
+var tfhdDefaults bool
+
 func writeSeg(path string, trackID uint32, firstSeq uint32, frags [][]mp4.FullSample) error {
 	seg := mp4.NewMediaSegment()
 	for i, fss := range frags {
@@ -350,6 +363,11 @@ func writeSeg(path string, trackID uint32, firstSeq uint32, frags [][]mp4.FullSa
 		seg.AddFragment(fr)
 		for _, fs := range fss {
 			fr.AddFullSample(fs)
+		}
+		if tfhdDefaults && len(fss) > 0 {
+			if err := fr.Moof.Traf.OptimizeTfhdTrun(); err != nil {
+				return err
+			}
 		}
 	}
 	var buf bytes.Buffer
@@ -386,6 +404,8 @@ func (l Layout) Materialize(root string) (string, error) {
 	dir := filepath.Join(root, name)
 	matMu.Lock()
 	defer matMu.Unlock()
+	tfhdDefaults = l.TfhdDur // writeSeg runs under matMu only
+	defer func() { tfhdDefaults = false }()
 	if _, err := os.Stat(filepath.Join(dir, "Manifest.mpd")); err == nil {
 		return name, nil
 	}
@@ -411,7 +431,7 @@ func (l Layout) Materialize(root string) (string, error) {
 		return fmt.Sprintf("%d.m4s", l.StartNumber+i)
 	}
 	// video
-	frameIdx, t := 0, 0
+	frameIdx, t := 0, l.VStart*l.VFrameDur
 	var vTimeline, aTimeline, tTimeline strings.Builder
 	for i, nf := range l.VSegFrames {
 		var fss []mp4.FullSample
